@@ -677,7 +677,7 @@ impl SymbolTable {
                 // Calculate which source code line is associated with the instruction the LC is currently pointing to
                 // and add the mapping from line to instruction address.
                 if let Some((lines, s)) = &mut debug_sym {
-                    if !matches!(stmt.nucleus, StmtKind::Directive(Directive::Orig(_) | Directive::End)) {
+                    if !matches!(stmt.nucleus, StmtKind::Directive(Directive::Orig(_) | Directive::End | Directive::External(_))) {
                         let line_index = s.get_line(stmt.span.start);
                         lines[line_index].replace(cur.lc);
                     }
